@@ -398,8 +398,8 @@ def case_nested(ctx, hooks, rng):
 def run(ctx):
     hooks = Hooks(ctx)
     hooks.install_plan_hook()
-    for _, rng in ctx.cases("structure", ctx.budget(13000, 250000)):
-        ctx.run_case(case_structure, ctx, hooks, rng)
     for _, rng in ctx.cases("nested", ctx.budget(11000, 200000)):
         ctx.run_case(case_nested, ctx, hooks, rng)
+    for _, rng in ctx.cases("structure", ctx.budget(13000, 20000)):
+        ctx.run_case(case_structure, ctx, hooks, rng)
     hooks.uninstall()
